@@ -58,6 +58,19 @@ func TestC19(t *testing.T) {
 				}
 			}
 		}
+		// any number of empty or "." segments before it: same first segment, same tag
+		if first != "" {
+			for _, pre := range []string{"/.", "/", "/./.", "/./", "//", "/././.", "///", "/.//.", "/./././.", "/////"} {
+				p2 := pre + "/" + seg
+				if c19FirstSegment(p2) != first {
+					continue
+				}
+				info.Class("skipped-leading-segments")
+				if n2 := c19AutoName(p2); n2 != name {
+					return vlib.Failf("auto-tag-not-shared", "paths %q and %q have the same first segment but tags %q and %q", "/"+seg, p2, name, n2)
+				}
+			}
+		}
 		if !strings.HasPrefix(name, "@") {
 			return vlib.Failf("auto-tag-name-shape", "automatic tag name %q for segment %q does not start with '@'", name, seg)
 		}
